@@ -249,21 +249,32 @@ def run(ctx):
         o = prim.origin_of_local(wf, 0).strip()
         ok = o.k == "call" and o.a["callee"] == M + "Follow::follow_at_depth" and o.kids[0].strip().k == "field" and o.kids[0].strip().a == "follow" and o.kids[1].strip().k == "call" and o.kids[1].strip().a["callee"] == E + "WalkEntry::depth"
         ctx.ob("R2", "entry-follow", ok, "WalkEntry::follow = %s; oracle self.follow.follow_at_depth(self.depth())" % o.fmt(), fn=wf, how="provenance slice")
-    gm = ctx.fn("R2", E + "WalkEntry::get_metadata")
+    gm = prog.fns.get(E + "WalkEntry::get_metadata")
+    gm_in_closure = False
+    gm_dispatch = None
+    if gm is None:
+        # the cache-miss computation written in place: the closure `metadata` hands to the cell (`get_or_init(|| match &self.inner {..})`)
+        wm_ = prog.fns.get(E + "WalkEntry::metadata")
+        for cf_ in (prog.closures_of(wm_) if wm_ is not None else []):
+            if any((t_.callee or "").split("::<")[0] == M + "Follow::metadata_at_depth" for _, t_ in cf_.calls()):
+                gm, gm_in_closure = cf_, True
+    if gm is None:
+        ctx.missing("R2", E + "WalkEntry::get_metadata (or the cache-filling closure of WalkEntry::metadata)")
+    else:
+        ctx.analysed_fns.add(gm.path)
     if gm is not None:
         o = prim.origin_of_local(gm, 0).strip()
         ok = o.k == "call" and o.a["callee"].split("::<")[0] == M + "Follow::metadata_at_depth"
         if ok:
             k = [x.strip() for x in o.kids]
             ok = k[0].k == "field" and k[0].a == "follow" and k[1].k == "call" and k[1].a["callee"] == E + "WalkEntry::path" and k[2].k == "call" and k[2].a["callee"] == E + "WalkEntry::depth"
-        gm_dispatch = None
         if not ok:
             # the cache-miss dispatch may live here: Explicit(path, depth) => follow.metadata_at_depth(path, depth), WalkDir(ent) => ent.metadata()
             gm_dispatch = _entry_arms(prog, gm)
             exp = gm_dispatch.get("Explicit", {})
             mad_calls = [t_ for t_ in exp.get("terms", []) if (t_.callee or "").split("::<")[0] == M + "Follow::metadata_at_depth"]
             if len(mad_calls) == 1 and sorted(exp.get("callees", [])) == [M + "Follow::metadata_at_depth"]:
-                a_ = [prim.origin_of_operand(gm, x_).strip() for x_ in mad_calls[0].args]
+                a_ = [prim.resolve_upvars(prog, gm, prim.origin_of_operand(gm, x_)).strip() if gm_in_closure else prim.origin_of_operand(gm, x_).strip() for x_ in mad_calls[0].args]
                 payload = lambda x_, i_: any(y.k == "variant" and str(y.a) == "Explicit" for y in x_.walk()) and any(y.k == "field" and str(y.a) == str(i_) for y in x_.walk())
                 ok = len(a_) == 3 and a_[0].k == "field" and a_[0].a == "follow" and payload(a_[1], 0) and payload(a_[2], 1) and sorted(gm_dispatch.get("WalkDir", {}).get("callees", [])) == ["walkdir::DirEntry::metadata"]
         ctx.ob("R2", "entry-record", ok, "WalkEntry::get_metadata = %s; oracle self.follow.metadata_at_depth(self.path(), self.depth()) (or, per variant, the explicit entry's own path and depth / the walkdir entry's record)" % o.fmt()[:300], fn=gm, how="provenance slice")
@@ -287,6 +298,10 @@ def run(ctx):
                         reg = [bb for bb in cf.reach_from([tgt]) if cf.dominates(tgt, bb)]
                         cs = sorted({(tt.callee or "").split("::<")[0] for bb in reg for tt in [cf.blocks[bb].term] if tt.k == "call" and ((tt.callee or "").startswith(E + "WalkEntry::get_metadata") or raw_name(tt))})
                         got[names.get(lab, lab)] = cs
+        if gm_in_closure and gm_dispatch is not None:
+            # the dispatch sits in the cache-filling closure itself and was judged there (entry-record)
+            if sorted(gm_dispatch.get("Explicit", {}).get("callees", [])) == [M + "Follow::metadata_at_depth"] and sorted(gm_dispatch.get("WalkDir", {}).get("callees", [])) == ["walkdir::DirEntry::metadata"]:
+                got = {"Explicit": [E + "WalkEntry::get_metadata"], "WalkDir": ["walkdir::DirEntry::metadata"]}
         if not got:
             # no dispatch in metadata itself: the cache is filled by get_metadata alone, which dispatches (entry-record)
             fills = sorted({(tt.callee or "").split("::<")[0] for cf in prog.closures_of(wm) for _, tt in cf.calls() if (tt.callee or "").startswith(E + "WalkEntry::get_metadata") or raw_name(tt)})
